@@ -30,6 +30,9 @@ import (
 	"sync"
 	"sync/atomic"
 	"time"
+	"unicode/utf8"
+
+	"path/filepath"
 
 	"github.com/sirupsen/logrus"
 	"github.com/spf13/viper"
@@ -92,6 +95,35 @@ type input struct {
 }
 
 const unknownID = 2000000
+
+// signature of the known finding "the forwarder drops an event that is not valid UTF-8"
+const nonUTF8Sig = "D8-non-utf8-event-dropped-by-forwarder"
+
+// the separate stream that reproduces it is generated only once the finding is listed in
+// /verif/known_findings.jsonl (the check must exit 0 until the lead has listed it)
+func findingListed() bool {
+	var roots []string
+	if wd, err := os.Getwd(); err == nil {
+		roots = append(roots, wd)
+	}
+	if exe, err := os.Executable(); err == nil {
+		roots = append(roots, filepath.Dir(exe))
+	}
+	for _, d := range roots {
+		for i := 0; i < 6; i++ {
+			if b, err := os.ReadFile(filepath.Join(d, "known_findings.jsonl")); err == nil {
+				for _, l := range strings.Split(string(b), "\n") {
+					if strings.HasPrefix(l, "{") && strings.Contains(l, nonUTF8Sig) && strings.Contains(l, `"C19"`) {
+						return true
+					}
+				}
+				return false
+			}
+			d = filepath.Dir(d)
+		}
+	}
+	return false
+}
 
 var lineIDre = regexp.MustCompile(`^_e\{[0-9]+,[0-9]+\}:E([0-9]{1,6})\.`)
 var titleIDre = regexp.MustCompile(`^E([0-9]{1,6})\.`)
@@ -301,9 +333,9 @@ func (c *cache) Peek(ip gostatsd.Source) (*gostatsd.Instance, bool) {
 	i, ok := c.table[ip]
 	return i, ok
 }
-func (c *cache) IpSink() chan<- gostatsd.Source             { return c.sink }
-func (c *cache) InfoSource() <-chan gostatsd.InstanceInfo   { return c.source }
-func (c *cache) EstimatedTags() int                         { return 2 }
+func (c *cache) IpSink() chan<- gostatsd.Source           { return c.sink }
+func (c *cache) InfoSource() <-chan gostatsd.InstanceInfo { return c.source }
+func (c *cache) EstimatedTags() int                       { return 2 }
 func (c *cache) serve() {
 	defer c.wg.Done()
 	for {
@@ -351,7 +383,29 @@ func waitTimeout(f func(), d time.Duration) bool {
 	}
 }
 
-func runCase(in input) hlib.Case {
+func eventNonUTF8(e *gostatsd.Event) bool {
+	if e == nil {
+		return false
+	}
+	ok := utf8.ValidString(e.Title) && utf8.ValidString(e.Text) && utf8.ValidString(e.AggregationKey) && utf8.ValidString(e.SourceTypeName)
+	for _, t := range e.Tags {
+		ok = ok && utf8.ValidString(t)
+	}
+	return !ok
+}
+
+// runCase returns the case and, for a forwarder run with event lines that are not valid UTF-8, a
+// second case that carries nothing but the known finding (those events are dropped by the
+// forwarder); the first case then checks everything else of the run at full strength.
+func runCase(in input) []hlib.Case {
+	c, k := runCase1(in)
+	if k != nil {
+		return []hlib.Case{c, *k}
+	}
+	return []hlib.Case{c}
+}
+
+func runCase1(in input) (hlib.Case, *hlib.Case) {
 	logrus.SetOutput(io.Discard)
 	var monitors []string
 	mon := func(f string, a ...interface{}) {
@@ -362,6 +416,7 @@ func runCase(in input) hlib.Case {
 	ctx, cancel := context.WithCancel(context.Background())
 	defer cancel()
 	dctx, dcancel := context.WithCancel(ctx) // the context the parsers dispatch with
+	defer dcancel()
 
 	log := &tlog{}
 	sh := &shared{log: log}
@@ -378,10 +433,11 @@ func runCase(in input) hlib.Case {
 	af := statsd.AggregatorFactoryFunc(func() statsd.Aggregator {
 		return statsd.NewMetricAggregator(nil, time.Minute, time.Minute, time.Minute, time.Minute, gostatsd.TimerSubtypes{}, 0)
 	})
-	bh := statsd.NewBackendHandler(backends, uint(in.Cap), 1, 64, af)
+	// The aggregation worker is not started: the few metric lines of a run stay in its (large) queue.
+	// BackendHandler.Run closes that queue when its context ends, and a metric map released late by
+	// the cloud handler would then hit a closed channel - a shutdown-order matter outside C19.
+	bh := statsd.NewBackendHandler(backends, uint(in.Cap), 1, 4096, af)
 	var bg sync.WaitGroup
-	bg.Add(1)
-	go func() { defer bg.Done(); bh.Run(ctx) }()
 
 	tailStatic := in.Static
 	if in.Mode != "standalone" {
@@ -395,7 +451,7 @@ func runCase(in input) hlib.Case {
 	if in.Mode != "standalone" {
 		hs, err := web.NewHttpServer(quiet, tp, "verif", "127.0.0.1:0", false, false, true, false, nil, nil)
 		if err != nil {
-			return hlib.Case{Input: in, Monitors: []string{"cannot build the ingestion server: " + err.Error()}, Class: in.Mode}
+			return hlib.Case{Input: in, Monitors: []string{"cannot build the ingestion server: " + err.Error()}, Class: in.Mode}, nil
 		}
 		srv = httptest.NewServer(hs.Router)
 		defer srv.Close()
@@ -408,7 +464,7 @@ func runCase(in input) hlib.Case {
 		}
 		hfh, err := statsd.NewHttpForwarderHandlerV2(quiet, "default", srv.URL, 1, 8, 1, compress, ctype, 1, 5*time.Second, time.Second, nil, nil, pool, nil)
 		if err != nil {
-			return hlib.Case{Input: in, Monitors: []string{"cannot build the forwarder: " + err.Error()}, Class: in.Mode}
+			return hlib.Case{Input: in, Monitors: []string{"cannot build the forwarder: " + err.Error()}, Class: in.Mode}, nil
 		}
 		head = statsd.NewTagHandler(hfh, append(gostatsd.Tags{}, in.Static...), nil)
 	}
@@ -427,6 +483,8 @@ func runCase(in input) hlib.Case {
 	ll := verifhooks.NewLineLexer(4)
 	nAccepted := 0
 	nLines := 0
+	badLine := map[int]bool{}     // forwarder mode: accepted event lines with a non-UTF-8 string (known finding)
+	badTitle := map[string]bool{} // ... their titles
 	tlo := time.Now().Unix()
 
 	if in.Mode == "ingest" {
@@ -463,7 +521,7 @@ func runCase(in input) hlib.Case {
 			}(g)
 		}
 		if !waitTimeout(swg.Wait, 8*time.Second) {
-			mon("posting the messages did not finish within 20s")
+			mon("posting the messages did not finish within 8s")
 		}
 	} else {
 		inCh := make(chan []*statsd.Datagram)
@@ -489,7 +547,12 @@ func runCase(in input) hlib.Case {
 				o := lexgen.Lex(ll, line, in.NS)
 				if o.Kind == "event" { // OAccepted names the accepted event lines only
 					ids[i] = append(ids[i], lineID(line, pos))
-					nAccepted++
+					if in.Mode == "forwarded" && eventNonUTF8(o.Event) {
+						badLine[pos] = true
+						badTitle[o.Event.Title] = true
+					} else {
+						nAccepted++
+					}
 				}
 				pos++
 			}
@@ -538,7 +601,7 @@ func runCase(in input) hlib.Case {
 			}(g)
 		}
 		if !waitTimeout(func() { swg.Wait(); done.Wait() }, 8*time.Second) {
-			mon("the parsers did not take / finish every datagram within 20s")
+			mon("the parsers did not take / finish every datagram within 8s")
 		}
 	}
 
@@ -548,7 +611,7 @@ func runCase(in input) hlib.Case {
 	if in.Mode == "forwarded" {
 		// first the forwarder: every accepted event must have been posted (entered the ingesting server)
 		if !waitTimeout(head.WaitForEvents, 8*time.Second) {
-			mon("the forwarder's WaitForEvents did not return within 20s")
+			mon("the forwarder's WaitForEvents did not return within 8s")
 		}
 		enteredAtWait = atomic.LoadInt64(&tp.entered)
 		if in.Cancel == 0 && enteredAtWait != int64(nAccepted) {
@@ -559,7 +622,7 @@ func runCase(in input) hlib.Case {
 		retsAtWait = atomic.LoadInt64(&sh.rets)
 		log.add(obs{K: "waitret"})
 		if !ok {
-			mon("the ingesting server's WaitForEvents did not return within 20s")
+			mon("the ingesting server's WaitForEvents did not return within 8s")
 		}
 	} else {
 		var h gostatsd.PipelineHandler = head
@@ -571,7 +634,7 @@ func runCase(in input) hlib.Case {
 		retsAtWait = atomic.LoadInt64(&sh.rets)
 		log.add(obs{K: "waitret"})
 		if !ok {
-			mon("WaitForEvents did not return within 20s")
+			mon("WaitForEvents did not return within 8s")
 		}
 	}
 	thi := time.Now().Unix()
@@ -629,9 +692,13 @@ func runCase(in input) hlib.Case {
 		senders[i] = hlib.Pair(hlib.Bytes(s.IP), io)
 	}
 	var lines []string
+	pos := 0
 	for _, dg := range in.Dgs {
 		for _, l := range dg.Lines {
-			lines = append(lines, hlib.Pair(hlib.Nat(dg.S), hlib.Bytes(bytesOf(l))))
+			if !badLine[pos] {
+				lines = append(lines, hlib.Pair(hlib.Nat(dg.S), hlib.Bytes(bytesOf(l))))
+			}
+			pos++
 		}
 	}
 	var msgs []string
@@ -660,7 +727,27 @@ func runCase(in input) hlib.Case {
 		"rets_at_wait": retsAtWait}
 	c.Class = in.Mode + "/" + in.Stream
 	c.Nontrivial = nAccepted >= 3 && in.NB >= 1
-	return c
+	if len(badLine) == 0 {
+		return c, nil
+	}
+	// the known finding, on its own: did any of the non-UTF-8 events reach the ingesting server?
+	arrived := 0
+	for _, cb := range caps {
+		cb.mu.Lock()
+		for i := range cb.got {
+			if badTitle[cb.got[i].Title] {
+				arrived++
+			}
+		}
+		cb.mu.Unlock()
+	}
+	k := hlib.Case{Input: in, Class: in.Mode + "/" + in.Stream + "/known", Known: nonUTF8Sig, Key: hlib.HashOf(in) + "-k",
+		Obs: map[string]interface{}{"non_utf8_event_lines": len(badLine), "deliveries_of_them": arrived}}
+	if in.NB > 0 && arrived < len(badLine)*in.NB {
+		k.Monitors = []string{fmt.Sprintf("%d accepted event line(s) with a string that is not valid UTF-8: %d of the %d deliveries owed upstream happened (the forwarder drops such events)",
+			len(badLine), arrived, len(badLine)*in.NB)}
+	}
+	return c, &k
 }
 
 // ---------------------------------------------------------------------------------------
@@ -798,6 +885,8 @@ func genDelays(r *hlib.Rand, nb int) [][]int {
 	return out
 }
 
+var nonUTF8Stream = false
+
 func genCase(r *hlib.Rand, k int) input {
 	in := input{NS: hlib.Pick(r, []string{"", "", "ns"}), Parsers: r.Range(1, 3), Groups: r.Range(1, 4)}
 	switch {
@@ -844,6 +933,9 @@ func genCase(r *hlib.Rand, k int) input {
 		extra = append(extra, s.Tags...)
 	}
 	utf8ok := in.Mode != "standalone" || r.Bool()
+	if nonUTF8Stream && k%40 == 27 { // a forwarded slot
+		in.Stream, utf8ok = "nonutf8", false
+	}
 	id := 0
 	if in.Mode == "ingest" {
 		n := r.Range(2, 14)
@@ -876,6 +968,9 @@ func genCase(r *hlib.Rand, k int) input {
 				line = eventLine(r, id, utf8ok, extra)
 			}
 			line = strings.ReplaceAll(line, "\n", "n")
+			if in.Stream == "nonutf8" && l == 0 && d == 0 {
+				line += "|k:\xff"
+			}
 			dg.Lines = append(dg.Lines, lexgen.ToInts(line))
 			id++
 		}
@@ -891,8 +986,11 @@ func main() {
 	switch a.Mode {
 	case "gen":
 		r := hlib.NewRand(a.Seed)
+		nonUTF8Stream = findingListed()
 		for i := 0; i < a.N; i++ {
-			em.Emit(runCase(genCase(r.Fork(), i)))
+			for _, c := range runCase(genCase(r.Fork(), i)) {
+				em.Emit(c)
+			}
 		}
 	case "run":
 		for _, raw := range a.Inputs {
@@ -901,7 +999,9 @@ func main() {
 				fmt.Fprintln(os.Stderr, "bad input:", err)
 				os.Exit(2)
 			}
-			em.Emit(runCase(in))
+			for _, c := range runCase(in) {
+				em.Emit(c)
+			}
 		}
 	}
 }
